@@ -725,8 +725,9 @@ func runInBubble(s Script) (res vt.Result) {
 			}
 			// A GET without Last-Event-ID (re)opens the standalone stream; the SDK replays it from the
 			// beginning, which the property does not speak about: only judged through ids.
+			sgetHalfOpen := standalone.halfOpen() // a vanished client's exchange the server has not noticed yet still owns the stream
 			ex := do("GET", "", nil)
-			if ex != nil && ex.Status() == 409 && racing {
+			if ex != nil && ex.Status() == 409 && (racing || sgetHalfOpen) {
 				standalone.exs = append(standalone.exs, &exch{ex: ex, from: -1, conflict: true})
 				break
 			}
